@@ -349,21 +349,34 @@ def set_leaf(obj, path, kind, x):
         setattr(parent, last, new)
 
 
+def scribble(bits):
+    """Overwrite a Bits object in place with its complement.  The harness does this to the SOURCE of
+    from_bits / `@= Bits` / `<<= Bits` and to the RESULT of to_bits() right after the call: the struct must
+    have copied the value, not kept (or handed out) the object."""
+    bits @= (~bits)
+
+
 def apply_action(objs, cls, a):
     """Execute one action record of BitStruct.tla on the real objects (dict name -> object)."""
     op, d = a["op"], a["d"]
     if op == "frombits":
-        objs[d] = cls.from_bits(mkbits(a["b"]))
+        src = mkbits(a["b"])
+        objs[d] = cls.from_bits(src)
+        scribble(src)
     elif op == "default":
         objs[d] = cls()
     elif op == "assign":
         objs[d] = operator.imatmul(objs[d], objs[a["s"]])
     elif op == "assignbits":
-        objs[d] = operator.imatmul(objs[d], mkbits(a["b"]))
+        src = mkbits(a["b"])
+        objs[d] = operator.imatmul(objs[d], src)
+        scribble(src)
     elif op == "nbassign":
         objs[d] = operator.ilshift(objs[d], objs[a["s"]])
     elif op == "nbassignbits":
-        objs[d] = operator.ilshift(objs[d], mkbits(a["b"]))
+        src = mkbits(a["b"])
+        objs[d] = operator.ilshift(objs[d], src)
+        scribble(src)
     elif op == "flip":
         objs[d]._flip()
     elif op == "clone":
